@@ -13,6 +13,7 @@ use ark_ec::{
     bls12::Bls12Config,
     bn::BnConfig,
     bw6::BW6Config,
+    hashing::curve_maps::{elligator2::Elligator2Config, swu::SWUConfig, wb::WBConfig},
     mnt4::MNT4Config,
     mnt6::MNT6Config,
     scalar_mul::glv::GLVConfig,
@@ -22,7 +23,7 @@ use ark_ec::{
 };
 use ark_ff::{
     BigInt, BigInteger, CubicExtConfig, CubicExtField, FftField, Field, Fp, Fp2Config, Fp3Config,
-    MontBackend, MontConfig, PrimeField, QuadExtConfig, QuadExtField,
+    MontBackend, MontConfig, PrimeField, QuadExtConfig, QuadExtField, SqrtPrecomputation,
 };
 use num_bigint::{BigInt as SInt, BigUint};
 use vharness::*;
@@ -142,6 +143,7 @@ impl<T: MontConfig<N>, const N: usize> PrimeDump for Fp<MontBackend<T, N>, N> {
         r.put("CAN_USE_NO_CARRY_MUL_OPT", V::B(T::CAN_USE_NO_CARRY_MUL_OPT));
         r.put("CAN_USE_NO_CARRY_SQUARE_OPT", V::B(T::CAN_USE_NO_CARRY_SQUARE_OPT));
         r.put("MODULUS_HAS_SPARE_BIT", V::B(T::MODULUS_HAS_SPARE_BIT));
+        sqrt_precomp(&mut r, &<F<T, N> as Field>::SQRT_PRECOMP);
         r.print();
     }
     /// case-interpreter ops on a registered prime field; a[0] = [id], a[1] = [p] (echoed)
@@ -179,6 +181,29 @@ impl<T: MontConfig<N>, const N: usize> PrimeDump for Fp<MontBackend<T, N>, N> {
             },
             _ => unsupported(),
         }
+    }
+}
+
+/// `Field::SQRT_PRECOMP` (what `sqrt()` really reads), keys SQRT_*
+fn sqrt_precomp<F: Field>(r: &mut Rec, o: &Option<SqrtPrecomputation<F>>) {
+    match o {
+        None => r.put("SQRT_KIND", V::S("none".into())),
+        Some(SqrtPrecomputation::TonelliShanks {
+            two_adicity,
+            quadratic_nonresidue_to_trace,
+            trace_of_modulus_minus_one_div_two,
+        }) => {
+            r.put("SQRT_KIND", V::S("tonelli_shanks".into()));
+            r.put("SQRT_TWO_ADICITY", vu64(*two_adicity as u64));
+            r.put("SQRT_QNR_TO_TRACE", vf(quadratic_nonresidue_to_trace));
+            r.put("SQRT_TRACE_MINUS_ONE_DIV_TWO", vlimbs(trace_of_modulus_minus_one_div_two));
+        },
+        Some(SqrtPrecomputation::Case3Mod4 { modulus_plus_one_div_four }) => {
+            r.put("SQRT_KIND", V::S("case3mod4".into()));
+            r.put("SQRT_MODULUS_PLUS_ONE_DIV_FOUR", vlimbs(modulus_plus_one_div_four));
+        },
+        #[allow(unreachable_patterns)]
+        Some(_) => r.put("SQRT_KIND", V::S("unknown".into())),
     }
 }
 
@@ -226,6 +251,7 @@ fn fp3<P: Fp3Config>(krate: &str, name: &str, base: &str) {
     r.put("TWO_ADICITY", vu64(P::TWO_ADICITY as u64));
     r.put("TRACE_MINUS_ONE_DIV_TWO", vlimbs(P::TRACE_MINUS_ONE_DIV_TWO));
     r.put("QUADRATIC_NONRESIDUE_TO_T", vf(&P::QUADRATIC_NONRESIDUE_TO_T));
+    sqrt_precomp(&mut r, &<ark_ff::Fp3<P> as Field>::SQRT_PRECOMP);
     r.print();
 }
 
@@ -276,6 +302,46 @@ fn glv<P: GLVConfig>(krate: &str, name: &str, curve: &str) {
             })
             .collect()),
     );
+    r.print();
+}
+
+// ---------------------------------------------------------------- map-to-curve parameters
+/// SWU parameters of the curve registered as `curve`
+fn swu<P: SWUConfig>(krate: &str, name: &str, curve: &str) {
+    let mut r = Rec::new(krate, "swu", name);
+    r.put("curve", V::S(curve.into()));
+    r.put("ZETA", vf(&P::ZETA));
+    r.print();
+}
+/// Wahby-Boneh: the isogenous curve (an SW group, printed when `emit_iso`, i.e. when the crate does not
+/// export it), its SWU parameters and the coefficient lists of the isogeny (lowest degree first)
+fn wb<P: WBConfig>(krate: &str, name: &str, iso: &str, codomain: &str, base: &str, scalar: &str, emit_iso: bool) {
+    if emit_iso {
+        sw::<P::IsogenousCurve>(krate, iso, base, scalar);
+    }
+    swu::<P::IsogenousCurve>(krate, &format!("{}_swu", iso), iso);
+    let mut r = Rec::new(krate, "wb", name);
+    r.put("domain", V::S(iso.into()));
+    r.put("codomain", V::S(codomain.into()));
+    r.put("X_NUM", vfs(P::ISOGENY_MAP.x_map_numerator));
+    r.put("X_DEN", vfs(P::ISOGENY_MAP.x_map_denominator));
+    r.put("Y_NUM", vfs(P::ISOGENY_MAP.y_map_numerator));
+    r.put("Y_DEN", vfs(P::ISOGENY_MAP.y_map_denominator));
+    r.print();
+}
+fn ell2<P: Elligator2Config>(krate: &str, name: &str, curve: &str) {
+    let mut r = Rec::new(krate, "elligator2", name);
+    r.put("curve", V::S(curve.into()));
+    r.put("Z", vf(&P::Z));
+    r.put("ONE_OVER_COEFF_B_SQUARE", vf(&P::ONE_OVER_COEFF_B_SQUARE));
+    r.put("COEFF_A_OVER_COEFF_B", vf(&P::COEFF_A_OVER_COEFF_B));
+    r.print();
+}
+/// a configuration with both a TE and an SW model: which registered records belong together
+fn sw_te(krate: &str, name: &str, sw: &str, te: &str) {
+    let mut r = Rec::new(krate, "sw_te", name);
+    r.put("sw", V::S(sw.into()));
+    r.put("te", V::S(te.into()));
     r.print();
 }
 
@@ -437,6 +503,15 @@ registry! {
         sw::<tc::bls12_381::g2_swu_iso::SwuIsoConfig>("t_bls12_381", "g2_swu_iso", "fq2", "fr");
         glv::<tc::bls12_381::g1::Config>("t_bls12_381", "g1_glv", "g1");
         bls12::<tc::bls12_381::Config>("t_bls12_381", "pairing");
+        wb::<tc::bls12_381::g1::Config>("t_bls12_381", "g1_wb", "g1_swu_iso", "g1", "fq", "fr", false);
+        wb::<tc::bls12_381::g2::Config>("t_bls12_381", "g2_wb", "g2_swu_iso", "g2", "fq2", "fr", false);
+        {
+            let mut r = Rec::new("t_bls12_381", "psi", "g2_psi");
+            r.put("COEFF_0", vf(&tc::bls12_381::g2::P_POWER_ENDOMORPHISM_COEFF_0));
+            r.put("COEFF_1", vf(&tc::bls12_381::g2::P_POWER_ENDOMORPHISM_COEFF_1));
+            r.put("DOUBLE_COEFF_0", vf(&tc::bls12_381::g2::DOUBLE_P_POWER_ENDOMORPHISM));
+            r.print();
+        }
         sw::<tc::bn384_small_two_adicity::g1::Config>("t_bn384", "g1", "fq", "fr");
         sw::<tc::mnt4_753::g1::Config>("t_mnt4_753", "g1", "fq", "fr");
         fp3::<tc::mnt6_753::Fq3Config>("t_mnt6_753", "fq3", "fq");
@@ -451,6 +526,8 @@ registry! {
         glv::<ark_bls12_381::g1::Config>("bls12_381", "g1_glv", "g1");
         glv::<ark_bls12_381::g2::Config>("bls12_381", "g2_glv", "g2");
         bls12::<ark_bls12_381::Config>("bls12_381", "pairing");
+        wb::<ark_bls12_381::g1::Config>("bls12_381", "g1_wb", "g1_swu_iso", "g1", "fq", "fr", true);
+        wb::<ark_bls12_381::g2::Config>("bls12_381", "g2_wb", "g2_swu_iso", "g2", "fq2", "fr", true);
         // ---- curves/bls12_377
         fp2::<ark_bls12_377::Fq2Config>("bls12_377", "fq2", "fq");
         ext::<ark_bls12_377::Fq6>("bls12_377", "fq6", "fp6_3over2", "fq2");
@@ -461,6 +538,9 @@ registry! {
         glv::<ark_bls12_377::g1::Config>("bls12_377", "g1_glv", "g1");
         glv::<ark_bls12_377::g2::Config>("bls12_377", "g2_glv", "g2");
         bls12::<ark_bls12_377::Config>("bls12_377", "pairing");
+        wb::<ark_bls12_377::g1::Config>("bls12_377", "g1_wb", "g1_swu_iso", "g1", "fq", "fr", true);
+        wb::<ark_bls12_377::g2::Config>("bls12_377", "g2_wb", "g2_swu_iso", "g2", "fq2", "fr", true);
+        sw_te("bls12_377", "g1_sw_te", "g1", "g1_te");
         // ---- curves/bn254
         fp2::<ark_bn254::Fq2Config>("bn254", "fq2", "fq");
         ext::<ark_bn254::Fq6>("bn254", "fq6", "fp6_3over2", "fq2");
@@ -481,8 +561,11 @@ registry! {
         sw::<ark_grumpkin::GrumpkinConfig>("grumpkin", "g1", "fq", "fr");
         te::<ark_ed_on_bls12_381::JubjubConfig>("ed_on_bls12_381", "te", "fq", "fr");
         sw::<ark_ed_on_bls12_381::JubjubConfig>("ed_on_bls12_381", "sw", "fq", "fr");
+        sw_te("ed_on_bls12_381", "sw_te", "sw", "te");
         te::<ark_ed_on_bls12_381_bandersnatch::BandersnatchConfig>("ed_on_bls12_381_bandersnatch", "te", "fq", "fr");
         sw::<ark_ed_on_bls12_381_bandersnatch::BandersnatchConfig>("ed_on_bls12_381_bandersnatch", "sw", "fq", "fr");
+        sw_te("ed_on_bls12_381_bandersnatch", "sw_te", "sw", "te");
+        ell2::<ark_ed_on_bls12_381_bandersnatch::BandersnatchConfig>("ed_on_bls12_381_bandersnatch", "elligator2", "te");
         te::<ark_ed_on_bls12_377::EdwardsConfig>("ed_on_bls12_377", "te", "fq", "fr");
         te::<ark_ed_on_bn254::EdwardsConfig>("ed_on_bn254", "te", "fq", "fr");
         te::<ark_ed_on_cp6_782::EdwardsConfig>("ed_on_cp6_782", "te", "fq", "fr");
@@ -529,6 +612,16 @@ registry! {
         ext::<ark_cp6_782::Fq6>("cp6_782", "fq6", "fp6_2over3", "fq3");
         sw::<ark_cp6_782::g1::Config>("cp6_782", "g1", "fq", "fr");
         sw::<ark_cp6_782::g2::Config>("cp6_782", "g2", "fq3", "fr");
+        {
+            let mut r = Rec::new("cp6_782", "cp6", "pairing");
+            r.put("TWIST", vf(&ark_cp6_782::TWIST));
+            r.put("ATE_LOOP_COUNT", vlimbs(&ark_cp6_782::ATE_LOOP_COUNT));
+            r.put("ATE_IS_LOOP_COUNT_NEG", V::B(ark_cp6_782::ATE_IS_LOOP_COUNT_NEG));
+            r.put("FINAL_EXPONENT_LAST_CHUNK_W1", vbig(ark_cp6_782::FINAL_EXPONENT_LAST_CHUNK_W1));
+            r.put("FINAL_EXPONENT_LAST_CHUNK_W0_IS_NEG", V::B(ark_cp6_782::FINAL_EXPONENT_LAST_CHUNK_W0_IS_NEG));
+            r.put("FINAL_EXPONENT_LAST_CHUNK_ABS_OF_W0", vbig(ark_cp6_782::FINAL_EXPONENT_LAST_CHUNK_ABS_OF_W0));
+            r.print();
+        }
     }
 }
 
